@@ -47,7 +47,7 @@ class _Oracle:
 def in_domain(f):
     """FmtStr whose text is free of escape introducers and whose attributes are the known ones"""
     from curtsies.formatstring import FmtStr
-    if not isinstance(f, FmtStr):
+    if not isinstance(f, FmtStr) or not hasattr(f, "chunks"):
         return False
     for ch in f.chunks:
         if obs.has_escape(ch.s):
